@@ -335,3 +335,29 @@ Fixpoint fnever_lines (s : stmt) : list N :=
 Definition ev_code (e : event) : N * N :=
   (fst e, match snd e with KAcq => 1 | KRel => 2 | _ => 0 end).
 Definition out_code (o : outcome) : N := match o with ONormal => 0 | OReturn => 0 | ORaise => 1 | OFuel => 2 end.
+
+(* ------------------------------------------------------------------------------------------- *)
+(* the singleton guard of the shell class:  `if not X.storage_instance:` / `if X.storage_instance is None:`  *)
+(* followed by  X.storage_instance = X.__Inner(..).   Python truthiness of an instance: __bool__ if the     *)
+(* class defines it, else __len__() != 0 if it defines that, else True.                                      *)
+(* ------------------------------------------------------------------------------------------- *)
+Inductive guard_form := GIsNone | GTruthy.
+Record singleton_shape := mkSing { sg_guard : guard_form; sg_has_len : bool; sg_has_bool : bool }.
+
+(* does constructing a new shell (importer, topology) REPLACE the store?  inst = None: no store yet;
+   Some n: a store holding n nodes.  With a user-defined __bool__ nothing is known: counted as "may replace". *)
+Definition replaces (sh : singleton_shape) (inst : option N) : bool :=
+  match inst with
+  | None => true
+  | Some n =>
+      match sg_guard sh with
+      | GIsNone => false
+      | GTruthy => if sg_has_bool sh then true else if sg_has_len sh then n =? 0 else false
+      end
+  end.
+
+Definition singleton_ok (sh : singleton_shape) : bool :=
+  match sg_guard sh with GIsNone => true | GTruthy => negb (sg_has_len sh || sg_has_bool sh) end.
+(* witness for a rejected shape: the size of a store that gets replaced *)
+Definition singleton_witness (sh : singleton_shape) : option N :=
+  if replaces sh (Some 0) then Some 0 else if replaces sh (Some 1) then Some 1 else None.
